@@ -29,6 +29,7 @@ ENTRY_RX = [
     r"^selium::streams::request_reply::replier::Replier::<E, D, F, ReqItem, ResItem>::handle_request$",
     r"^selium::streams::request_reply::replier::Replier::<E, D, F, ReqItem, ResItem>::decode_message$",
     r"^selium::streams::handle_reply$",
+    r"^selium_protocol::topic_name::TopicName::is_valid$",        # applied by the server to names deserialised straight from the wire
     r"^<selium_protocol::bistream::ReadHalf as futures_core::stream::Stream>::poll_next$",
     r"^<selium_protocol::bistream::BiStream as futures_core::stream::Stream>::poll_next$",
 ]
